@@ -8,8 +8,10 @@
 //!   `perm t=.. copies=..`        `Assembly::copy` + `build_pk` on the recorded copies against
 //!                                the permutation polynomials inside the real pk bytes;
 //!   `commit k s values`          scalar `p(s)` whose multiple of G is the real commitment;
-//!   `lagrange via=setup|downsize` Lagrange-basis scalars of `unsafe_setup` / `downsize`;
-//!   `paramslayout`, `paramsparse`, `pkparse`.
+//!   `lagrange via=setup|downsize` Lagrange-basis scalars of `unsafe_setup` (chunked for `t`
+//!                                threads) / `downsize`;
+//!   `paramslayout`, `paramsparse`, `pkparse`, `mvkparse`, `mpkparse` (wrapper headers of
+//!                                zk_stdlib and their structural variants).
 //! Oracle: determinism over pools × repetitions, write-A/read-B matrix for vk, pk, params,
 //! 4-way proof cross-verification, downsize = fresh setup.
 
@@ -30,7 +32,7 @@ fn main() {
     let (n_members, reps, kmax, all_pk, commit_cols) = match ctx.tier.as_str() {
         "quick" => (10usize, 2usize, 7u32, false, 6usize),
         "thorough" => (48, 4, 10, true, 64),
-        _ => (10, 3, 7, true, 4),
+        _ => (30, 3, 8, true, 4),
     };
     let every = FamParams {
         n_adv0: 4,
